@@ -19,8 +19,77 @@ RULE = ("blueprints of 1-8 segments (thorough: up to 40) mixing ramp/sine/gaussi
         "non-trivial = at least 2 segments and a successful forge")
 
 
+def short_wait_case(g):
+    """a waituntil whose zero padding comes out at 0, 1 or 2 samples (first, middle or last segment): fewer than two samples
+    make forging fail for this kind of segment as for every other -- it is not dropped"""
+    r = g.r
+    SR = r.choice([1, 10, 100, 1e3, 1e6, 2.5])
+    a = r.randint(2, 9)
+    k = r.choice([0, 0.3, 1, 1.3, 2, 0, 1])
+    where = r.choice(["middle", "middle", "last", "first", "second_of_two"])
+    user = {"name": "const", "qual": "function const", "params": ["level", "SR", "npts"]}
+    ops = [{"op": "bp.new", "id": "b"}]
+    ramp = lambda n, fn="ramp": {"op": "bp.insert", "id": "b", "pos": -1, "fn": fn, "args": [enc(0.5)] if fn != "ramp" else [enc(0.25), enc(1)],
+                                 "dur": enc(n / SR), "name": None}
+    if where == "first":
+        ops += [{"op": "bp.insert", "id": "b", "pos": -1, "fn": "waituntil", "args": [enc(k / SR)], "dur": None, "name": None}, ramp(a)]
+    elif where == "last":
+        ops += [ramp(a), {"op": "bp.insert", "id": "b", "pos": -1, "fn": "waituntil", "args": [enc((a + k) / SR)], "dur": None, "name": None}]
+    elif where == "second_of_two":
+        ops += [ramp(a), {"op": "bp.insert", "id": "b", "pos": -1, "fn": "waituntil", "args": [enc((a + 3) / SR)], "dur": None, "name": None},
+                {"op": "bp.insert", "id": "b", "pos": -1, "fn": "waituntil", "args": [enc((a + 3 + k) / SR)], "dur": None, "name": None}, ramp(4, user)]
+    else:
+        ops += [ramp(a), {"op": "bp.insert", "id": "b", "pos": -1, "fn": "waituntil", "args": [enc((a + k) / SR)], "dur": None, "name": None},
+                ramp(r.randint(2, 6), r.choice(["ramp", user]))]
+    ops += [{"op": "bp.setSR", "id": "b", "SR": enc(SR)}, {"op": "el.new", "id": "e"}, {"op": "el.addBP", "id": "e", "ch": 1, "bp": "b"},
+            {"op": "el.getArrays", "id": "e", "time": True}, {"op": "el.getArrays", "id": "e", "time": False},
+            {"op": "bp.points", "id": "b"}, {"op": "bp.duration", "id": "b"}]
+    return ops
+
+
+def direct(seed, tier, model, stats):
+    """on the implementation alone: every segment's block is what ITS OWN pulse function returns (two different user functions
+    that look alike in a description, on two channels of one element and in two separate elements)"""
+    import random
+    from props.c02 import check_calls_twins
+    from core import BluePrint, Element
+    r = random.Random(seed * 6133 + 1)
+    fails = []
+    n_checks = 0
+    for _ in range(15 if tier == "quick" else 150):
+        n_checks += 1
+        d = check_calls_twins(r)
+        if d is None:
+            # the same across two separate elements forged one after the other
+            SR, n = r.choice([1, 10, 1e6]), r.randint(3, 20)
+
+            def make(sign):
+                def shape(level, SR, npts):
+                    return sign * level * np.ones(int(npts))
+                return shape
+            outs = []
+            for f in (make(1.0), make(-1.0)):
+                bp = BluePrint()
+                bp.insertSegment(-1, f, (0.5,), dur=n / SR, name="lvl")
+                bp.setSR(SR)
+                e = Element()
+                e.addBluePrint(1, bp)
+                outs.append(np.asarray(e.getArrays()[1]["wfm"], float))
+            if not (np.array_equal(outs[0], 0.5 * np.ones(n)) and np.array_equal(outs[1], -0.5 * np.ones(n))):
+                d = (f"two separate elements with look-alike user shapes (one factory, same arguments): the second element's block is "
+                     f"{outs[1][:3]} ..., its own shape returns -0.5")
+        if d:
+            fails.append({"what": d, "call": "forging blueprints whose user shapes share name, signature and arguments"})
+            break
+    stats["cases"] += n_checks
+    stats["nontrivial"] += n_checks
+    return fails
+
+
 def case(g, tier, ci):
     r = g.r
+    if ci % 15 == 7:
+        return short_wait_case(g)
     nseg = (1, 8) if tier == "quick" or r.random() < 0.8 else (9, 40)
     short = r.random() < 0.15
     ops, info = g.blueprint("b", nseg=nseg, waits=0.2 if r.random() < 0.5 else 0.0, nmax=30 if tier == "quick" else 200)
